@@ -130,7 +130,10 @@ func (ce *convergenceElem) activate() (successful, retry bool) {
 		}).Info("Failed to start CLA")
 
 		if claRetry {
-			atomic.AddInt32(&ce.ttl, -1)
+			// A negative ttl means "active"; a permanent CLA is retried with a ttl of zero.
+			if atomic.LoadInt32(&ce.ttl) > 0 {
+				atomic.AddInt32(&ce.ttl, -1)
+			}
 		} else {
 			atomic.StoreInt32(&ce.ttl, 0)
 		}
